@@ -672,4 +672,413 @@ theorem c07_interN_is_meet_13 (n : Nat) (xs : List C13.Ctx) (hne : xs ≠ []) :
   exact C13.interN_is_meet n xs hne
 
 end inter
+
+/-! ## 3. `get_recursively(d, keys)` (functions.py:245-338), the walk of lines 319-338
+
+Lean: `C13.getRec` (slot numbers; the error carries the key that is missing), `C15.getRecGo` (key strings +
+table), `C08.walk` / `C08.getRec` (association lists; all three notations of `keys`, default), and the
+reference notions `Val.getPath` (C07) and `C08.getPath`.  All of them are the path lookup `Val.getPath`.
+Outside the common domain: the *name* in C13's `LenaKeyError` (C08 and C15 only say that the key is missing);
+C08's normalisation of the three notations and its `default` (C13 takes a list of slot numbers, C15 a string
+or a list of strings); a key that is not in the table `names` (absent in every slot view). -/
+
+section get
+variable {β : Type}
+
+theorem getPath_nil' (v : Val β) : getPath v [] = some v := by cases v <;> rfl
+
+theorem getPath_dict_cons' (l : Slots β) (i : Nat) (p : List Nat) :
+    getPath (.dict l) (i :: p) = (getSlot l i).bind (fun w => getPath w p) := by
+  rw [getPath]; cases getSlot l i <;> rfl
+
+/-! ### change of leaf type (the functions that do not look at leaves commute with it) -/
+
+mutual
+def mapLeaf {α γ : Type} (f : α → γ) : Val α → Val γ
+  | .leaf a => .leaf (f a)
+  | .dict l => .dict (mapLeafL f l)
+def mapLeafL {α γ : Type} (f : α → γ) : Slots α → Slots γ
+  | [] => []
+  | none :: r => none :: mapLeafL f r
+  | some v :: r => some (mapLeaf f v) :: mapLeafL f r
+end
+
+theorem mapLeaf_dict {α γ : Type} (f : α → γ) (l : Slots α) : mapLeaf f (.dict l) = .dict (mapLeafL f l) := by
+  rw [mapLeaf]
+
+theorem getSlot_mapLeafL {α γ : Type} (f : α → γ) : ∀ (l : Slots α) (k : Nat),
+    getSlot (mapLeafL f l) k = (getSlot l k).map (mapLeaf f)
+  | [], k => by simp [mapLeafL, getSlot]
+  | none :: r, 0 => by simp [mapLeafL, getSlot]
+  | some v :: r, 0 => by simp [mapLeafL, getSlot]
+  | none :: r, k + 1 => by
+    have := getSlot_mapLeafL f r k
+    simp only [getSlot] at this
+    simp [mapLeafL, getSlot, this]
+  | some v :: r, k + 1 => by
+    have := getSlot_mapLeafL f r k
+    simp only [getSlot] at this
+    simp [mapLeafL, getSlot, this]
+
+/-- the path lookup commutes with a change of leaf type -/
+theorem getPath_mapLeaf {α γ : Type} (f : α → γ) : ∀ (p : List Nat) (v : Val α),
+    getPath (mapLeaf f v) p = (getPath v p).map (mapLeaf f)
+  | [], v => by simp [getPath_nil']
+  | k :: p, .leaf a => by simp [mapLeaf, getPath]
+  | k :: p, .dict l => by
+    rw [mapLeaf_dict, getPath_dict_cons', getPath_dict_cons', getSlot_mapLeafL]
+    cases getSlot l k with
+    | none => simp
+    | some w => simpa using getPath_mapLeaf f p w
+
+theorem mapLeafL_cons {α γ : Type} (f : α → γ) (x : Option (Val α)) (r : Slots α) :
+    mapLeafL f (x :: r) = x.map (mapLeaf f) :: mapLeafL f r := by
+  cases x <;> simp [mapLeafL]
+
+theorem mapLeafL_length {α γ : Type} (f : α → γ) : ∀ l : Slots α, (mapLeafL f l).length = l.length
+  | [] => by simp [mapLeafL]
+  | x :: r => by simp [mapLeafL_cons, mapLeafL_length f r]
+
+theorem mapLeafL_replicate {α γ : Type} (f : α → γ) : ∀ n : Nat,
+    mapLeafL f (List.replicate n (none : Option (Val α))) = List.replicate n none
+  | 0 => by simp [mapLeafL]
+  | n + 1 => by simp [List.replicate_succ, mapLeafL_cons, mapLeafL_replicate f n]
+
+mutual
+theorem updO_mapLeaf {α γ : Type} (f : α → γ) : ∀ (u d : Option (Val α)),
+    C07.updO (d.map (mapLeaf f)) (u.map (mapLeaf f)) = (C07.updO d u).map (mapLeaf f)
+  | none, d => by cases d <;> simp [C07.updO]
+  | some (.leaf a), d => by cases d <;> simp [C07.updO, mapLeaf]
+  | some (.dict y), none => by simp [C07.updO, mapLeaf]
+  | some (.dict y), some (.leaf b) => by
+    have h := updL_mapLeaf f y (emptyLike y)
+    have e : mapLeafL f (emptyLike y) = emptyLike (mapLeafL f y) := by
+      simp [emptyLike, mapLeafL_replicate, mapLeafL_length]
+    simp [C07.updO, mapLeaf, ← h, e]
+  | some (.dict y), some (.dict x) => by simp [C07.updO, mapLeaf, updL_mapLeaf f y x]
+/-- `update_recursively` commutes with a change of leaf type (it never looks at a leaf) -/
+theorem updL_mapLeaf {α γ : Type} (f : α → γ) : ∀ (u d : Slots α),
+    C07.updL (mapLeafL f d) (mapLeafL f u) = mapLeafL f (C07.updL d u)
+  | [], d => by simp [mapLeafL, C07.updL]
+  | y :: r', [] => by
+    have h1 := updO_mapLeaf f y none
+    have h2 := updL_mapLeaf f r' []
+    simp only [mapLeafL, Option.map_none] at h1 h2
+    simp only [mapLeafL_cons, mapLeafL, C07.updL, h1, h2]
+  | y :: r', x :: r => by
+    have h1 := updO_mapLeaf f y x
+    have h2 := updL_mapLeaf f r' r
+    simp only [mapLeafL_cons, C07.updL, h1, h2]
+end
+
+/-- **get_recursively, C13 = path lookup**: C13's walk succeeds exactly when the path names an item, and
+returns it -/
+theorem getRec_13_path : ∀ (p : List Nat) (d : C13.Ctx),
+    (C13.getRec d p).toOption = getPath (.dict d) p
+  | [], d => by simp [C13.getRec, Except.toOption, getPath]
+  | [k], d => by
+    rw [C13.getRec, getPath_dict_cons']
+    cases h : getSlot d k <;> simp [Except.toOption, getPath_nil']
+  | k :: k' :: ks, d => by
+    rw [C13.getRec, getPath_dict_cons']
+    cases h : getSlot d k with
+    | none => simp [Except.toOption]
+    | some w =>
+      cases w with
+      | leaf a => simp [Except.toOption, getPath]
+      | dict d' => simpa using getRec_13_path (k' :: ks) d'
+
+/-- when C13's walk fails it names a key of the path (`Props.C13.getRec_error_mem`), and then the path names
+nothing -/
+theorem getRec_13_error (p : List Nat) (d : C13.Ctx) (k : Nat) (h : C13.getRec d p = .error k) :
+    k ∈ p ∧ getPath (.dict d) p = none := by
+  refine ⟨C13.getRec_error_mem p d k h, ?_⟩
+  rw [← getRec_13_path, h]; rfl
+
+/-- **get_recursively, C15 = path lookup**: C15's walk over key strings is the path lookup of the slot
+numbers `names.idxOf` — every table, every list of keys (a key outside the table has the slot number
+`names.length`, absent in both) -/
+theorem getRecGo_15_path (names : List String) : ∀ (ks : List String) (d : C15.Slots),
+    (C15.getRecGo names d ks).map of15 = getPath (.dict (of15L d)) (idx names ks)
+  | [], d => by simp [C15.getRecGo, idx, getPath, of15]
+  | [k], d => by
+    simp only [C15.getRecGo, idx, List.map_cons, List.map_nil, C15.lookupKey]
+    rw [getPath_dict_cons', getSlot_of15L]
+    cases C15.slotGet d (names.idxOf k) <;> simp [getPath_nil']
+  | k :: k' :: ks, d => by
+    simp only [C15.getRecGo, idx, List.map_cons, C15.lookupKey]
+    rw [getPath_dict_cons', getSlot_of15L]
+    cases h : C15.slotGet d (names.idxOf k) with
+    | none => simp
+    | some w =>
+      cases w with
+      | leaf a => simp [of15, getPath]
+      | dict l =>
+        have ih := getRecGo_15_path names (k' :: ks) l
+        simp only [idx, List.map_cons] at ih
+        simp [of15, ih]
+
+variable (lf : C08.Leaf → β) (ls : List C08.Val → β) (names : List String)
+
+/-- **get_recursively, C08 → path lookup**: the item a key path names in an association list
+(`C08.getPath`, which `C08.walk` computes: `Lemmas.C08.walk_eq_getPath`) is, in the slot view, the item at
+the path of slot numbers — for every path whose keys are in the table -/
+theorem getPath_08_path : ∀ (p : List String) (v : C08.Val), (∀ k ∈ p, k ∈ names) →
+    (C08.getPath v p).map (absV lf ls names) = getPath (absV lf ls names v) (idx names p)
+  | [], v, _ => by simp [idx, getPath_nil']
+  | k :: p, .leaf a, _ => by simp [idx, absV_leaf, getPath]
+  | k :: p, .list xs, _ => by simp [idx, absV_list, getPath]
+  | k :: p, .dict es, h => by
+    have hk : k ∈ names := h k (by simp)
+    have ih := fun w => getPath_08_path p w (fun k' hk' => h k' (by simp [hk']))
+    rw [absV_dict, C08.getPath_dict_cons]
+    simp only [idx, List.map_cons]
+    rw [getPath_dict_cons', getSlot_absE lf ls names es k hk]
+    cases C08.lookup es k with
+    | none => simp
+    | some w => simpa [idx] using ih w
+
+/-- `C08.walk` on string keys, in the slot view -/
+theorem walk_08_path (p : List String) (es : C08.Entries) (hp : ∀ k ∈ p, k ∈ names) :
+    (C08.walk es (p.map C08.Leaf.str)).map (absV lf ls names) =
+      getPath (.dict (absE lf ls names es)) (idx names p) := by
+  rw [C08.walk_eq_getPath, getPath_08_path lf ls names p (.dict es) hp, absV_dict]
+
+/-- **get_recursively, C08 ↔ C13** (the walk): C13's walk on the slot view succeeds exactly when C08's does,
+with the abstraction of the same item -/
+theorem walk_08_13 (p : List String) (es : C08.Entries) (hp : ∀ k ∈ p, k ∈ names) :
+    (C13.getRec (absE leaf13 (fun _ => C13.Leaf.bad) names es) (idx names p)).toOption =
+      (C08.walk es (p.map C08.Leaf.str)).map (absV leaf13 (fun _ => C13.Leaf.bad) names) := by
+  rw [getRec_13_path, walk_08_path _ _ names p es hp]
+
+/-- **get_recursively, C08 ↔ C13** (the call without default, any of the three notations that normalises to
+the string keys `p`): the same item, or `LenaKeyError` on both sides (C13 naming a key of the path) -/
+theorem getRec_08_13 (es : C08.Entries) (key : C08.KeyArg) (p : List String)
+    (hk : C08.normKeys key = .ok (p.map C08.Leaf.str)) (hp : ∀ k ∈ p, k ∈ names) :
+    match C08.getRec (.dict es) key none with
+    | .ok v => C13.getRec (absE leaf13 (fun _ => C13.Leaf.bad) names es) (idx names p) =
+        .ok (absV leaf13 (fun _ => C13.Leaf.bad) names v)
+    | .error e => e = .lenaKeyError ∧
+        ∃ k ∈ idx names p, C13.getRec (absE leaf13 (fun _ => C13.Leaf.bad) names es) (idx names p) = .error k := by
+  have h13 := getRec_13_path (idx names p) (absE leaf13 (fun _ => C13.Leaf.bad) names es)
+  have h08 := getPath_08_path leaf13 (fun _ => C13.Leaf.bad) names p (.dict es) hp
+  rw [absV_dict] at h08
+  rw [C08.get_eq_path es key p none hk]
+  cases hg : C08.getPath (.dict es) p with
+  | some v =>
+    simp only
+    rw [hg] at h08
+    rw [← h08] at h13
+    cases hr : C13.getRec (absE leaf13 (fun _ => C13.Leaf.bad) names es) (idx names p) with
+    | ok w => rw [hr] at h13; simp [Except.toOption] at h13; rw [h13]
+    | error k => rw [hr] at h13; simp [Except.toOption] at h13
+  | none =>
+    simp only
+    rw [hg] at h08
+    rw [← h08] at h13
+    cases hr : C13.getRec (absE leaf13 (fun _ => C13.Leaf.bad) names es) (idx names p) with
+    | ok w => rw [hr] at h13; simp [Except.toOption] at h13
+    | error k => exact ⟨by simp, k, C13.getRec_error_mem _ _ k hr, rfl⟩
+
+/-! ### C15's slot view of a C08 dictionary -/
+
+/-- a Python list has no counterpart in C15 (placeholder; lists are outside the common domain) -/
+def ls15 : List C08.Val → C15.Leaf := fun xs => .obj ((C08.reprVal (.list xs)).getD "")
+
+/-- the C15 value of a C08 value over the table `names` -/
+def abs15 (names : List String) (v : C08.Val) : C15.Val := to15 (absV leaf15 ls15 names v)
+def abs15E (names : List String) (es : C08.Entries) : C15.Slots := to15L (absE leaf15 ls15 names es)
+
+theorem abs15_dict (es : C08.Entries) : abs15 names (.dict es) = .dict (abs15E names es) := by
+  rw [abs15, absV_dict, to15]; rfl
+
+theorem slotGet_to15L (x : Slots C15.Leaf) (k : Nat) : C15.slotGet (to15L x) k = (getSlot x k).map to15 := by
+  have h := getSlot_of15L (to15L x) k
+  rw [of15L_to15L] at h
+  rw [h]
+  cases C15.slotGet (to15L x) k <;> simp [to15_of15]
+
+/-- `d.get(key)`: C15's `lookupKey` on the slot view is C08's `lookup` -/
+theorem lookupKey_15_08 (es : C08.Entries) (k : String) (hk : k ∈ names) :
+    C15.lookupKey names (abs15E names es) k = (C08.lookup es k).map (abs15 names) := by
+  rw [C15.lookupKey, abs15E, slotGet_to15L, getSlot_absE leaf15 ls15 names es k hk]
+  cases C08.lookup es k <;> simp [abs15]
+
+/-- **get_recursively, C08 ↔ C15** (the walk): C15's walk on its slot view of an association list finds the
+abstraction of what C08's walk finds, and fails when C08's fails -/
+theorem getRecGo_15_08 (ks : List String) (es : C08.Entries) (hk : ∀ k ∈ ks, k ∈ names) :
+    C15.getRecGo names (abs15E names es) ks = (C08.walk es (ks.map C08.Leaf.str)).map (abs15 names) := by
+  have h1 := getRecGo_15_path names ks (abs15E names es)
+  rw [abs15E, of15L_to15L, ← walk_08_path leaf15 ls15 names ks es hk] at h1
+  have h2 := congrArg (Option.map to15) h1
+  have : (to15 ∘ of15) = id := funext to15_of15
+  simp only [Option.map_map, this, Option.map_id, id] at h2
+  rw [abs15E, h2]; rfl
+
+/-- **get_recursively, C13 ↔ C15** (directly, on slot vectors): C13's walk on the C13-reading of a C15 vector
+(leaves translated by any `f`) succeeds exactly when C15's walk does, with the translated item -/
+theorem getRec_13_15 (f : C15.Leaf → C13.Leaf) (names : List String) (ks : List String) (d : C15.Slots) :
+    (C13.getRec (mapLeafL f (of15L d)) (idx names ks)).toOption =
+      (C15.getRecGo names d ks).map (fun v => mapLeaf f (of15 v)) := by
+  have h := congrArg (Option.map (mapLeaf f)) (getRecGo_15_path names ks d)
+  rw [getRec_13_path, ← mapLeaf_dict, getPath_mapLeaf, ← h, Option.map_map]
+  rfl
+
+example : (C15.getRecGo ["a", "b"] (abs15E ["a", "b"] [("b", .dict [("a", .leaf (.int 3))])]) ["b", "a"]).map of15 =
+    some (.leaf (.int 3)) := by decide
+
+example : C13.getRec (absE leaf13 (fun _ => C13.Leaf.bad) ["a", "b"] [("b", .dict [("a", .leaf (.int 3))])])
+    (idx ["a", "b"] ["b", "a"]) = .ok (.leaf (.int 3)) := by decide
+
+/-! ### corollaries -/
+
+/-- C07's frame law `update_keeps` for C08's transcription of `update_recursively`, read with C08's own
+path lookup: a path that `other` leaves alone names the same item (in the slot view) before and after -/
+theorem c08_update_keeps (d o : C08.Entries) (ho : C08.EntriesWF o) (p : List String)
+    (hp : ∀ k ∈ p, k ∈ names) (h : C07.untouchedL (absE lf ls names o) (idx names p) = true) :
+    (C08.getPath (.dict (C08.updRec d o)) p).map (absV lf ls names) =
+      (C08.getPath (.dict d) p).map (absV lf ls names) := by
+  rw [getPath_08_path lf ls names p _ hp, getPath_08_path lf ls names p _ hp, absV_dict, absV_dict,
+    updRec_08_07 lf ls names d o ho]
+  exact C07.update_keeps _ _ _ h
+
+/-- the same law for C13's transcriptions of `update_recursively` and `get_recursively`: a `SetContext`
+whose key path leaves `p` alone does not change what a later formatting string reads at `p` -/
+theorem c13_update_keeps (d u : C13.Ctx) (p : List Nat) (h : C07.untouchedL u p = true) :
+    (C13.getRec (C13.updL d u) p).toOption = (C13.getRec d p).toOption := by
+  rw [getRec_13_path, getRec_13_path, updL_13_07]
+  exact C07.update_keeps d u p h
+
+/-- C13's monotonicity of the lookup (`getRec_mono`) for C15's walk is not needed: both are `getPath`; what
+transfers is C08's `get_of_str_to_dict`-style reading: C15's walk reads what C08's `update_recursively`
+wrote -/
+theorem c15_reads_c08_update (d o : C08.Entries) (ho : C08.EntriesWF o) (ks : List String)
+    (hk : ∀ k ∈ ks, k ∈ names) :
+    (C15.getRecGo names (abs15E names (C08.updRec d o)) ks).map of15 =
+      getPath (.dict (C07.updL (absE leaf15 ls15 names d) (absE leaf15 ls15 names o))) (idx names ks) := by
+  rw [getRecGo_15_path, abs15E, of15L_to15L, updRec_08_07 leaf15 ls15 names d o ho]
+
+end get
+
+/-! ## 4. `contains(d, s)` (functions.py:14-63)
+
+Lean: `C08.containsGo` / `C08.contains` (association lists; lists, floats and foreign objects as values),
+`C15.containsGo` / `C15.contains` (slot vectors of C15's own type + key table).
+Common domain (`In15`): dictionaries whose scalars have a `str()` (every C08 scalar but an object whose
+`str()` raises) and that hold no Python list (C15 has no list value; C08 compares `repr(list)`), with a
+query whose dot-separated parts are keys of the table.  Outside it: exactly those two kinds of values, and
+query parts outside the table (then `C15.contains` is `False`, whatever the dictionary holds). -/
+
+section contains
+
+mutual
+/-- the values C15 can represent faithfully for `contains`: no list, no scalar whose `str()` raises -/
+def In15 : C08.Val → Prop
+  | .leaf a => C08.pyStr a ≠ none
+  | .list _ => False
+  | .dict es => In15E es
+def In15E : C08.Entries → Prop
+  | [] => True
+  | (_, v) :: r => In15 v ∧ In15E r
+end
+
+theorem in15_lookup : ∀ (es : C08.Entries) (k : String) (w : C08.Val), In15E es → C08.lookup es k = some w → In15 w
+  | [], k, w, _, h => by simp [C08.lookup] at h
+  | (k0, v0) :: r, k, w, hi, h => by
+    rw [In15E] at hi
+    rw [C08.lookup] at h
+    by_cases e : k0 = k
+    · simp [e] at h; subst h; exact hi.1
+    · simp [e] at h; exact in15_lookup r k w hi.2 h
+
+/-- `str(x)` of a scalar: C15's `pyStr` of the translated leaf is C08's -/
+theorem pyStr_15_08 (a : C08.Leaf) (s : String) (h : C08.pyStr a = some s) : C15.pyStr (leaf15 a) = s := by
+  cases a with
+  | none => simp [C08.pyStr] at h; simp [leaf15, C15.pyStr, h]
+  | bool b => cases b <;> simp [C08.pyStr] at h <;> simp [leaf15, C15.pyStr, h]
+  | int i => simp [C08.pyStr] at h; simp [leaf15, C15.pyStr, h]
+  | str t => simp [C08.pyStr] at h; simp [leaf15, C15.pyStr, h]
+  | float r => simp [C08.pyStr] at h; simp [leaf15, C15.pyStr, h]
+  | obj o => simp [C08.pyStr] at h; simp [leaf15, C15.pyStr, h]
+
+theorem c15_splitDotsC_eq : ∀ cs : List Char, C15.splitDotsC cs = C08.splitDotsC cs
+  | [] => rfl
+  | c :: cs => by
+    rw [C15.splitDotsC, C08.splitDotsC, c15_splitDotsC_eq cs]
+    cases C08.splitDotsC cs <;> rfl
+
+/-- `s.split('.')`: the two transcriptions are the same function -/
+theorem splitDots_15_08 (s : String) : C15.splitDots s = C08.splitDots s := by
+  rw [C15.splitDots, C08.splitDots, c15_splitDotsC_eq]
+
+variable (names : List String)
+
+/-- **contains, C08 ↔ C15** (the loop over the levels): on the common domain C15's loop on its slot view
+returns what C08's loop returns -/
+theorem containsGo_08_15 : ∀ (levels : List String) (v : C08.Val), In15 v → (∀ k ∈ levels, k ∈ names) →
+    C15.containsGo names (abs15 names v) levels = C08.containsGo v levels
+  | [], v, _, _ => by cases v <;> simp [C15.containsGo, C08.containsGo]
+  | [last], .dict es, _, hk => by
+    rw [abs15_dict, C15.containsGo, C08.containsGo, lookupKey_15_08 names es last (hk last (by simp))]
+    cases C08.lookup es last <;> simp
+  | [last], .leaf a, hi, _ => by
+    rw [In15] at hi
+    obtain ⟨s, hs⟩ := Option.ne_none_iff_exists'.1 hi
+    rw [abs15, absV_leaf, to15, C15.containsGo, C08.containsGo, pyStr_15_08 a s hs, hs]
+    by_cases e : s = last <;> simp [e]
+  | [last], .list xs, hi, _ => by rw [In15] at hi; exact absurd hi id
+  | key :: k2 :: rest, .dict es, hi, hk => by
+    rw [In15] at hi
+    rw [abs15_dict]
+    simp only [C15.containsGo, C08.containsGo]
+    rw [lookupKey_15_08 names es key (hk key (by simp))]
+    cases h : C08.lookup es key with
+    | none => simp
+    | some w =>
+      simp only [Option.map_some]
+      exact containsGo_08_15 (k2 :: rest) w (in15_lookup es key w hi h)
+        (fun k hk' => hk k (by simp at hk' ⊢; exact Or.inr hk'))
+  | key :: k2 :: rest, .leaf a, _, _ => by
+    rw [abs15, absV_leaf, to15]; simp only [C15.containsGo, C08.containsGo]
+  | key :: k2 :: rest, .list xs, hi, _ => by rw [In15] at hi; exact absurd hi id
+
+/-- **contains, C08 ↔ C15** (the function): for a dictionary of the common domain and a query whose parts are
+keys of the table, `C15.contains` on the slot view is `C08.contains` -/
+theorem contains_08_15 (d : C08.Entries) (s : String) (hd : In15E d)
+    (hk : ∀ k ∈ C08.splitDots s, k ∈ names) :
+    C15.contains names (abs15E names d) s = C08.contains d s := by
+  rw [C15.contains, C08.contains, splitDots_15_08]
+  by_cases e : s = ""
+  · simp [e]
+  · simp only [e, if_false]
+    have := containsGo_08_15 names (C08.splitDots s) (.dict d) (by rw [In15]; exact hd) hk
+    rw [abs15_dict] at this
+    exact this
+
+example : In15E [("a", .dict [("b", .leaf (.float "1.5"))]), ("c", .leaf (.bool true))] := by
+  simp [In15E, In15, C08.pyStr]
+
+example : C15.contains ["a", "b", "1.5"] (abs15E ["a", "b", "1.5"] [("a", .dict [("b", .leaf (.int 7))])]) "a.b.7" =
+    C08.contains [("a", .dict [("b", .leaf (.int 7))])] "a.b.7" := by decide
+
+/-! ### corollaries -/
+
+/-- C08's characterisation `contains_iff` ("the path names an item, or its last part is `str()` of the scalar
+the path before it names") holds for C15's transcription on the slot view -/
+theorem c15_contains_iff (d : C08.Entries) (q : List String) (last : String) (hd : In15E d)
+    (hw : C08.WFPath (q ++ [last])) (hk : ∀ k ∈ q ++ [last], k ∈ names) :
+    C15.contains names (abs15E names d) (C08.joinDots (q ++ [last])) = true ↔
+      (C08.getPath (.dict d) (q ++ [last])).isSome = true ∨
+        ∃ x, C08.getPath (.dict d) q = some x ∧ x.isDict = false ∧ C08.pyStrVal x = some last := by
+  have hs : C08.splitDots (C08.joinDots (q ++ [last])) = q ++ [last] :=
+    C08.splitDots_joinDots (q ++ [last]) (by simp) (fun k hk' => (hw k hk').2)
+  rw [contains_08_15 names d _ hd (by rw [hs]; exact hk)]
+  exact C08.contains_iff d q last hw
+
+/-- `contains(d, "")` is `True` in both (commit e5c725f) -/
+theorem contains_empty_08_15 (d : C08.Entries) :
+    C15.contains names (abs15E names d) "" = true ∧ C08.contains d "" = true := by
+  simp [C15.contains, C08.contains]
+
+end contains
 end Lena.Bridge.Context
